@@ -139,13 +139,15 @@ Fixpoint gunfold (k : nat) (g : graph) (n : name) : utree :=
 Inductive result :=
 | RErr                     (* an error: the build failed, or ("unlinked ref") the lookup found a
                               placeholder with To == nil *)
+| RNil                     (* no error, but no schema either: the lookup found the typed nil pointer
+                              that a failed build had left in To (only without the lock) *)
 | ROk (t : utree).
 
 (* the end of Schema: on an error the registered refs are deleted; registered = nil *)
 Definition finish_shared (res : result) (sh : shared) : shared :=
   match res with
   | RErr => rollback sh
-  | ROk _ => reset_reg sh
+  | RNil | ROk _ => reset_reg sh
   end.
 
 (* ---- thread-local continuation ---------------------------------------- *)
@@ -197,7 +199,7 @@ Definition lstep (k : nat) (g : graph) (n : name) (sh : shared) (p : pc) : share
       | Some c =>
           match cell_to sh c with
           | Some _ => (sh, inr (ROk (unfold k (heap sh) c)))
-          | None => (sh, inr RErr)
+          | None => (sh, inr (if existsb (Nat.eqb c) (failed sh) then RNil else RErr))
           end
       | None => (sh, inl PInsert)
       end
